@@ -90,7 +90,7 @@ pub fn build(spec: &XorbSpec) -> Built {
     let mut rng = Rng::new(spec.seed);
     let mut chunks = Vec::new();
     for i in 0..spec.n_chunks.max(1) {
-        let len = match spec.len_style % 5 {
+        let len = match spec.len_style % 6 {
             0 => rng.range(1, 64),
             1 => rng.range(1, 2000),
             2 => rng.log_range(1, 20_000),
@@ -100,6 +100,7 @@ pub fn build(spec: &XorbSpec) -> Built {
                 2 => 65536,
                 _ => rng.log_range(1, 131072),
             },
+            5 => 131072,
             _ => 4093 + (i as u64 % 8),
         } as usize;
         let kind = match spec.content_mix % 4 {
@@ -299,7 +300,8 @@ fn run_c07(p: &Plan, rep: &mut RunReport) {
             }
         }
     } else {
-        for _ in 0..40 {
+        let very_large = b.data.len() > (16 << 20);
+        for _ in 0..if very_large { 3 } else { 40 } {
             let a = rng.below(n as u64) as u32;
             ranges.push((a, a + 1 + rng.below((n - a) as u64) as u32));
         }
@@ -328,7 +330,7 @@ fn run_c07(p: &Plan, rep: &mut RunReport) {
     rep.count("ranges_checked", ranges.len() as u64);
 
     // C07.d the three chunk decoders on a chunk range of the stored bytes
-    let (a, e) = ranges[rng.usize_below(ranges.len())];
+    let (a, e) = if b.data.len() > (16 << 20) { (n - 1, n) } else { ranges[rng.usize_below(ranges.len())] };
     let bs = if a == 0 { 0 } else { want_b[a as usize - 1] as usize };
     let be = want_b[e as usize - 1] as usize;
     let section = &b.bytes[bs..be];
@@ -802,14 +804,24 @@ fn gen(seed: u64, run: u64, focus: &str, tier: Tier) -> Plan {
             } else {
                 rng.log_range(1, 14) as u32
             },
-            len_style: if huge { 0 } else if big { rng.below(3) as u32 } else { rng.below(5) as u32 },
+            len_style: if huge { 0 } else if big { rng.below(3) as u32 } else { *rng.pick(&[0u32, 1, 2, 3, 4]) },
             content_mix: rng.below(4) as u32,
             scheme: rng.below(4) as u32,
         };
+        let mut spec = spec;
+        let mut reader_mode = rng.below(3) as u32;
+        if rng.chance(1, if tier == Tier::Quick { 2000 } else { 1500 }) {
+            // a completely full xorb: 512 chunks of the maximum chunk size, 64 MiB of incompressible data
+            spec.n_chunks = 512;
+            spec.len_style = 5;
+            spec.content_mix = 0;
+            spec.scheme = *rng.pick(&[0u32, 3]);
+            reader_mode = 0;
+        }
         return Plan {
             spec,
             reader_seed: rng.next_u64(),
-            reader_mode: rng.below(3) as u32,
+            reader_mode,
             pending_p: *rng.pick(&[0u64, 2, 8]),
             range_seed: rng.next_u64(),
             mutation: Mutation::None,
@@ -936,7 +948,7 @@ impl Engine for XorbEngine {
     }
     fn rule(&self, focus: &str) -> String {
         if focus == "C07" {
-            "Each run: a seeded chunk list (1..600 chunks, one run in 150 (quick) or 50 (thorough) 600..8192 small chunks incl. 1151/1152/1153 and the 8192 maximum; lengths 1 B..128 KiB incl. every residue mod 4, random / compressible / float-like content) is serialised by the real code under None / LZ4 / BG4+LZ4 / automatic, parsed by the independent parser, and read back through a seekable reader with seeded short reads (whole object, every chunk range up to 12 chunks, sampled beyond) — one run in three after a damaged copy of the same object (one compressed payload damaged at its end, in its middle or made inconsistent) has been read on the same thread — and through the three chunk decoders (sync short reads; tokio AsyncRead with short reads and Pending; Stream<Bytes> cut at seeded offsets incl. empty fragments). Non-trivial: a compressed scheme was actually stored and a reader delivered fragments. Distinct: (spec seed, scheme, reader seed, reader mode, chunk count).".into()
+            "Each run: a seeded chunk list (1..600 chunks, one run in 150 (quick) or 50 (thorough) 600..8192 small chunks incl. 1151/1152/1153 and the 8192 maximum; one run in 2000 / 1500 a completely full xorb of 512 maximum-size incompressible chunks (64 MiB); lengths 1 B..128 KiB incl. every residue mod 4, random / compressible / float-like content) is serialised by the real code under None / LZ4 / BG4+LZ4 / automatic, parsed by the independent parser, and read back through a seekable reader with seeded short reads (whole object, every chunk range up to 12 chunks, sampled beyond) — one run in three after a damaged copy of the same object (one compressed payload damaged at its end, in its middle or made inconsistent) has been read on the same thread — and through the three chunk decoders (sync short reads; tokio AsyncRead with short reads and Pending; Stream<Bytes> cut at seeded offsets incl. empty fragments). Non-trivial: a compressed scheme was actually stored and a reader delivered fragments. Distinct: (spec seed, scheme, reader seed, reader mode, chunk count).".into()
         } else {
             "Each run: a valid xorb (with its own hash and with another hash) plus one seeded mutant (byte flip, truncation, dropped/duplicated/swapped chunks with or without a rebuilt footer, overwritten u32 footer fields incl. counts and section offsets, combined footer edits (section-version bytes together with u32 fields), re-assembled footers whose three chunk counts disagree while every table and offset is consistent with its own count, stripped footer, appended bytes, random string); one run in 40 additionally enumerates, for an object of 1-4 small chunks, every single-bit flip and the all-bits flip of every chunk-header and non-hash footer byte (3 masks for hash bytes), truncation at every offset, every pair (one of the three version bytes set to 0 or 2) x (one u32 footer field zeroed, incremented or saturated), and all 26 re-assembled footers with count deltas in {-1,0,+1}^3. Both validators and the footer parser run under catch_unwind with a counting allocator; every acceptance is re-verified independently. Non-trivial: the mutant differs from the original and is at least 8 bytes long (parsing gets past the ident check). Distinct: (spec seed, mutation, enumerate).".into()
         }
